@@ -2,7 +2,7 @@
    The floating-point simplex, presolve and scaling are untrusted witness producers.  These theorems say what an
    accepted witness implies for the LP exactly as the user stated it, for LPs of every size. *)
 From Coq Require Import QArith Qabs List Bool.
-From SV Require Import Vec LP Cert Cert_Proofs DriverModel Driver_Proofs RatGateModel SolveGateModel SolveGate_Proofs.
+From SV Require Import Vec LP Cert Cert_Proofs DriverModel Driver_Proofs Driver_Honest RatGateModel SolveGateModel SolveGate_Proofs.
 Import ListNotations.
 Local Open Scope Q_scope.
 
@@ -124,6 +124,16 @@ Proof. exact gate_alone_is_not_a_certificate. Qed.
 Print Assumptions C01_gate_alone_is_not_a_certificate_refuted.
 
 (* ---- non-vacuity ---- *)
+(* the status the driver ends with is what its last pass shows (Driver_Honest.v): OPTIMAL is the status of the last inner
+   solve (or cycling resolved to it, or the simplifier made the LP vanish), never a left-over of an earlier pass *)
+Theorem C01_optimal_is_last_pass : forall P orc oscaled fuel s0 s',
+  optimize P orc oscaled fuel s0 = Done s' -> DriverModel.status s' = DriverModel.OPTIMAL ->
+  exists f, frame s' = S f /\
+    (o_status (orc f) = DriverModel.OPTIMAL \/ (o_status (orc f) = DriverModel.ABORT_CYCLING /\ o_cycstatus (orc f) = DriverModel.OPTIMAL) \/
+     (p_simp P = true /\ o_simp (orc f) = S_VANISHED)).
+Proof. exact optimal_not_claimed_after_limit. Qed.
+Print Assumptions C01_optimal_is_last_pass.
+
 Definition ex_orec (t : st) (vfail : bool) : orec :=
   {| o_simp := S_OKAY; o_scaled := true; o_status := t; o_throw := false; o_vbits := (false, vfail, false, false);
      o_dualfeas := true; o_cycstatus := ABORT_CYCLING; o_resbasis := true |}.
